@@ -4,7 +4,7 @@ import json, os
 V = os.path.dirname(os.path.dirname(os.path.abspath(__file__)))
 ids = [json.loads(l)["id"] for l in open(os.path.join(V, "properties.jsonl"))]
 
-TRUST = ("Trusted: Verus+Z3, rustc front end, the vx extractor (rewrite rules R0-R39 logged per run), the prelude "
+TRUST = ("Trusted: Verus+Z3, rustc front end, the vx extractor (rewrite rules R0-R40 logged per run), the prelude "
          "stand-ins for dependencies (listed per run in evidence.trusted_base). ")
 
 SMNOTE = (TRUST + "State-machine group: the embedder traits (Storage, PolicyEngine, Installer, Timer, TimeSource, MetricsReporter, HttpRequest, "
@@ -30,10 +30,10 @@ CLAIMS = {
    text="Proof (Verus) of the real StandardCupv2Handler::verify_response (accepted iff the ETag, stripped per parse_etag, is hex(DER sig):hex(SHA-256(request body)) with the request-hash equality over whole "
         "byte strings, the signature well-formed DER and valid under the key registered for the given id over SHA-256(SHA-256(req)||SHA-256(resp)||\"id:noncehex\"); accepted signature returned unchanged), "
         "make_transaction_hash (exact digest composition through a Sha256 stand-in with a ghost absorb buffer), verify_response_with_signature, StandardCupv2Handler::new (id->key map). "
-        "parse_etag (slice patterns + unsafe) is extracted verbatim and checked by Kani with a pointer/length oracle: bounded (ETag <= 64 visible-ASCII bytes), labelled as such.",
+        "parse_etag (slice patterns + unsafe from_utf8_unchecked) is now proved in Verus for ETags of ANY length: the slice-pattern match is rewritten mechanically into its if/else form (R40), the bytes/chars link for ASCII text is proved from vstd::utf8 (encode/decode lemmas), result == strip_etag(input). The earlier Kani harness (pointer/length oracle, ETag <= 64 bytes) is kept as a bounded memory-level cross-check, labelled bounded and not counted.",
    note=TRUST + "sha256, hex and ECDSA validity are uninterpreted (no collision-resistance/unforgeability reasoning: 'any change makes verification fail' holds up to those standard assumptions); "
-        "the once().chain().map().collect() of new() is a pinned (assumed) fragment; the Kani part is bounded and not counted as proved.",
-   technique="contract-based deductive verification (Verus) + Kani harness (bounded) for parse_etag", design="4/C01", kani=True),
+        "the once().chain().map().collect() of new() is a pinned (assumed) fragment; assumed for parse_etag: hyper's HeaderValue::to_str yields ASCII only (axiom_header_text_is_ascii), core::str::from_utf8_unchecked returns the str over exactly the given bytes; the Kani part is bounded and not counted as proved.",
+   technique="contract-based deductive verification (Verus) of mechanically extracted functions, parse_etag included; Kani harness (bounded) only as a cross-check of parse_etag", design="4/C01", kani=True),
  "C03": dict(
    text="Proof (Verus) of the real decorate_request (metadata = latest key id, a freshly drawn 32-byte nonce, exactly the serialised body; the URI gets exactly one cup2key=<id>:<hex nonce> parameter; body untouched), "
         "HttpUriExt::append_query_parameter (scheme/authority kept, path and existing query kept, &key=value or ?key=value appended), Nonce::new (fresh draw token), StandardCupv2Handler::new (latest id), "
